@@ -66,7 +66,7 @@ func runC14(r *core.Run) {
 	}
 	r.Stats["transport_read_sites"] = nreads
 
-	c14Complete(r, isEOFZero)
+	c14Complete(r, "R14.2", isEOFZero)
 	c14Conn(r)
 	c14NextPackage(r)
 }
@@ -283,7 +283,7 @@ func c14Loop(r *core.Run, fn *ssa.Function, c ssa.CallInstruction, e ssa.Value, 
 		"after a failed read the loop can continue without consulting any context/timeout: the wait for the rest of a packet is unbounded")
 }
 
-func c14Complete(r *core.Run, isEOFZero func(ssa.Value) bool) {
+func c14Complete(r *core.Run, rule string, isEOFZero func(ssa.Value) bool) {
 	p := r.Prog
 	fn := p.Func("tds", "Packet", "ReadFrom")
 	lengthF := p.Field("tds", "PacketHeader", "Length")
@@ -327,7 +327,7 @@ func c14Complete(r *core.Run, isEOFZero func(ssa.Value) bool) {
 		}
 	}
 	if read == nil {
-		r.Unknown("R14.2", "(*tds.Packet).ReadFrom", fn.Pos(), "no transport read of the body found")
+		r.Unknown(rule, "(*tds.Packet).ReadFrom", fn.Pos(), "no transport read of the body found")
 		return
 	}
 	e, _ := errResult(read)
@@ -383,13 +383,13 @@ func c14Complete(r *core.Run, isEOFZero func(ssa.Value) bool) {
 		key := "(*tds.Packet).ReadFrom return " + core.Expr(ev)
 		n++
 		if a.bad != "" {
-			r.Bad("R14.2", key, ret.Pos(), a.bad)
+			r.Bad(rule, key, ret.Pos(), a.bad)
 		} else {
-			r.OK("R14.2", key, ret.Pos(), "nil only with a complete body; EOF-like errors only with a complete body or not at all")
+			r.OK(rule, key, ret.Pos(), "nil only with a complete body; EOF-like errors only with a complete body or not at all")
 		}
 	}
 	if n == 0 {
-		r.Unknown("R14.2", "(*tds.Packet).ReadFrom", fn.Pos(), "no returns after the body read")
+		r.Unknown(rule, "(*tds.Packet).ReadFrom", fn.Pos(), "no returns after the body read")
 	}
 
 	// header: nil error of PacketHeader.ReadFrom only after a full read
@@ -401,7 +401,7 @@ func c14Complete(r *core.Run, isEOFZero func(ssa.Value) bool) {
 		}
 	}
 	if hread == nil {
-		r.Unknown("R14.2", "(*tds.PacketHeader).ReadFrom", hf.Pos(), "no transport read found")
+		r.Unknown(rule, "(*tds.PacketHeader).ReadFrom", hf.Pos(), "no transport read found")
 		return
 	}
 	full := core.IsPkgFunc(hread, "io", "ReadFull")
@@ -438,7 +438,7 @@ func c14Complete(r *core.Run, isEOFZero func(ssa.Value) bool) {
 			okAll, why = false, "a single Read may return fewer than 8 bytes with a nil error; the success return is not dominated by n == PacketHeaderSize"
 		}
 	}
-	r.Check(okAll, "R14.2", "(*tds.PacketHeader).ReadFrom success", hf.Pos(), "header parsed only after all 8 bytes were read without error", why)
+	r.Check(okAll, rule, "(*tds.PacketHeader).ReadFrom success", hf.Pos(), "header parsed only after all 8 bytes were read without error", why)
 }
 
 func c14Conn(r *core.Run) {
